@@ -74,7 +74,7 @@ def count_specs(tier: str):
 
 
 def specs(tier: str):
-    out = count_specs(tier) + [sp for sp in families.extra_specs("zero", tier) if sp.family.startswith("newline(none)") or sp.family.startswith("empty-ranges")] + families.metachar_specs("zero", tier) + families.ctx3_specs("zero", tier, families.T_CORE, ("none",), "abA", 3 if tier == "quick" else 4)
+    out = count_specs(tier) + [sp for sp in families.extra_specs("zero", tier) if sp.family.startswith("newline(none)") or sp.family.startswith("empty-ranges")] + families.metachar_specs("zero", tier) + families.recursive_specs("zero", tier) + families.ctx3_specs("zero", tier, families.T_CORE, ("none",), "abA", 3 if tier == "quick" else 4)
     for n, exact, L, silent in BOUNDS[tier]:
         ins = families.inputs(families.SIGMA_CORE, L)
         for body in families.core_exprs(n, exact=exact):
@@ -90,7 +90,7 @@ def run(tier: str) -> int:
                                    "unary operators ( ) ? * + {2} {1,} {,2} {1,2} & ! and binary ~ |, filtered for well-formedness (no repetition over a nullable operand), "
                                    "as the body of a normal start rule r and a silent start rule q, x every string over {a,b,A} up to length L, in mode IU, against the reference model; "
                                    "plus every expression with <= 2 nodes over {NEWLINE, \"a\", \"\\n\", ANY} on every string over {a, \\r, \\n} up to length 4; "
-                                   "plus three contexts deep: c1(c2(c3(terminal))) for every core terminal and every triple of eleven core contexts (expressions of 8-15 nodes); plus empty (reversed) ranges under every operator; plus literals made of regular-expression metacharacters; "
+                                   + families.RECURSIVE_RULE_TEXT[2:] + "; " + "plus three contexts deep: c1(c2(c3(terminal))) for every core terminal and every triple of eleven core contexts (expressions of 8-15 nodes); plus empty (reversed) ranges under every operator; plus literals made of regular-expression metacharacters; "
                                    f"plus the counts family: every bound {{m}} {{m,}} {{,n}} {{m,n}} up to {COUNTS[tier][0]} over every non-nullable terminal, (n ~ \"b\") and (\"ab\" | \"a\") (thorough: every non-nullable operand of <= 2 nodes), alone / followed by \"a\" / followed by EOI / in an abandoned alternative, inputs up to length {COUNTS[tier][1]}; "
                                    "a case is non-trivial when the reference run backtracked at least once or returned at least one pair")
 
